@@ -188,6 +188,20 @@ pub fn run(ctx: &mut Ctx) {
                         mat.clone(),
                     );
                 }
+                // (4) nothing is left behind the archive's end: a stream that was not longer before ends there, and bytes of a
+                // longer pre-filled stream that lie behind the archive are not the writer's business
+                if pos == p + arch_end {
+                    let end_abs = pos as usize;
+                    if prefill_len <= end_abs && data.len() != end_abs {
+                        ctx.violation(api, "beyond-end", "bytes were written behind the archive's end", &format!("start {p}, archive ends at {end_abs}, stream has {} bytes", data.len()), mat.clone());
+                    } else if prefill_len > end_abs {
+                        if let Some(at) = (end_abs..prefill_len.min(data.len())).find(|j| data[*j] != sentinel(*j)) {
+                            ctx.violation(api, "beyond-end", "bytes behind the archive's end were modified", &format!("start {p}, archive ends at {end_abs}, byte {at} of the pre-filled stream changed"), mat.clone());
+                        } else {
+                            ctx.count("bytes_behind_the_archive_intact");
+                        }
+                    }
+                }
                 if h.leaf_length > 0 {
                     ctx.count("with_leaf_spill");
                 } else if spill {
